@@ -2,3 +2,4 @@
 //! through the library API exactly as ragc-cli/src/main.rs `create_archive` drives it.
 pub mod archive;
 pub mod genomes;
+pub mod cli;
